@@ -367,6 +367,13 @@ def gen_cases(rng, tier, have):
             C.append(mk("lowest_prim_root", [n], "lowest_prim_root", n=n))
         elif n <= 200:
             C.append(mk("lowest_prim_root", [n], "lowest_prim_root", n=n))
+    # p^m, m > 1, where the generator found modulo p is NOT one modulo p^2 (the `A += p` correction of lines 178-179):
+    # 2 for the Wieferich primes 1093, 3511; 5 for 40487 (least primitive root 5); 14 / 18 / 19 are reached only by the random loop
+    for q in (1093, 3511, 40487):
+        _FC.update({q * q: {q: 2}, 2 * q * q: {2: 1, q: 2}, q ** 3: {q: 3}})
+        for n in (q * q, 2 * q * q, q ** 3):
+            C.append(mk("prim_root" if q != 3511 else "prim_root.runs", [n], "prim_root", n=n))
+            C.append(mk("is_prim_root", [2 if q != 40487 else 5, n], "is_prim_root", a=2 if q != 40487 else 5, n=n))
     for i in range(60 if th else 16):
         q = rand_prime(rng, rng.range(14, 32))          # the code factors p^m by Pollard rho: ~4 s for a 43-bit p
         _FC.update({q: {q: 1}, 2 * q: {2: 1, q: 1}, q * q: {q: 2}, 2 * q ** 3: {2: 1, q: 3}})
@@ -812,7 +819,7 @@ def build_impl(chk):
     return b, log, have
 
 
-def run_parallel(binary, lines, nproc=6, timeout=1500):
+def run_parallel(binary, lines, nproc=6, timeout=300):
     """run the line-protocol binary on `lines` split round-robin over nproc processes; returns (ok, outputs in order, err)"""
     if not lines:
         return True, [], ""
